@@ -4,7 +4,11 @@ package main
 // given package directories (type-checked from source).  Output: one JSON object per site.
 
 import (
+	"bytes"
+	"crypto/sha256"
+	"encoding/hex"
 	"go/ast"
+	"go/printer"
 	"go/importer"
 	"go/parser"
 	"go/token"
@@ -22,6 +26,7 @@ type site struct {
 	Line int    `json:"line"`
 	Func string `json:"func"`
 	Expr string `json:"expr"`
+	Hash string `json:"hash"` // maprange: fingerprint of the loop as written (header and body, formatted by go/printer)
 }
 
 func init() {
@@ -55,7 +60,10 @@ func init() {
 							if tv, ok := info.Types[x.X]; ok && tv.Type != nil {
 								if _, ok := tv.Type.Underlying().(*types.Map); ok {
 									p := fset.Position(x.Pos())
-									out = append(out, site{"maprange", dir, filepath.Base(p.Filename), p.Line, fn, types.ExprString(x.X)})
+									var buf bytes.Buffer
+									printer.Fprint(&buf, fset, x)
+									sum := sha256.Sum256(buf.Bytes())
+									out = append(out, site{"maprange", dir, filepath.Base(p.Filename), p.Line, fn, types.ExprString(x.X), hex.EncodeToString(sum[:8])})
 								}
 							}
 						case *ast.SelectorExpr:
@@ -64,7 +72,7 @@ func init() {
 									path := pn.Imported().Path()
 									if (path == "time" && (x.Sel.Name == "Now" || x.Sel.Name == "Since")) || path == "math/rand" || path == "crypto/rand" {
 										p := fset.Position(x.Pos())
-										out = append(out, site{"clock", dir, filepath.Base(p.Filename), p.Line, fn, path + "." + x.Sel.Name})
+										out = append(out, site{"clock", dir, filepath.Base(p.Filename), p.Line, fn, path + "." + x.Sel.Name, ""})
 									}
 								}
 							}
